@@ -20,7 +20,10 @@
     written values so a torn or mixed read matches nothing; a file copy -- also from a
     source that is being written or stream-written at that moment -- is a read of one
     complete value followed later by the write of the destination), with the documented
-    deviation enabled only where a Remove(dir) overlaps a creation beneath it."""
+    deviation enabled only where a Remove(dir) overlaps a creation beneath it.
+(R2) further forced schedules: copy / copy of the parent directory while a stream writer has
+    written part of a new value; Remove parked after its emptiness test with WriteFile beneath
+    it and Copy of the parent started, then released -- all three must return (lock order)."""
 import json
 import vlib
 
